@@ -589,3 +589,25 @@ Definition geo_walk_s (g : grid) (msx msy : Z) (cov : bbox -> Z) (skipk : Z) (le
   run_walk_s old
              (geo_tree g msx msy cov skipk (report_till levels) (S (length (ress g))) root levels 0 false)
              (hd 0 levels) stop.
+
+(* ------------------------------------------------------------------ the work of a seed worker on one handed list *)
+(* TileSeedWorker.work_loop -> TileManager.load_tile_coords -> TileCreator.create_tiles -> _create_meta_tile with a cache
+   that stores the tiles of a meta tile one by one (TileCacheBase.store_tiles: file cache ...).  A cache content is the
+   list of stored tile coordinates.  `members` = meta_tile.tiles (without None) of the meta tile the handed tiles belong to. *)
+Definition cache_has (c : list coord) (t : coord) : bool := existsb (coord_eqb t) c.
+
+(* the walker in uncached mode hands over the members that are not cached (handed_tiles with keep = not cached) *)
+Definition uncached_members (c members : list coord) : list coord :=
+  filter (fun t => negb (cache_has c t)) members.
+
+(* _create_meta_tile, under the lock of the main tile: unless every tile of the meta tile is cached the meta tile is
+   requested and store_tiles stores all members in order; result = the store_tile calls *)
+Definition create_meta_stores (c members : list coord) : list coord :=
+  if forallb (cache_has c) members then [] else members.
+
+(* load_tile_coords(handed): only when some handed tile is missing the creator is called *)
+Definition worker_stores (c members handed : list coord) : list coord :=
+  if existsb (fun t => negb (cache_has c t)) handed then create_meta_stores c members else [].
+
+(* the cache when the worker process dies right behind its j-th store_tile (j >= number of stores: it does not die) *)
+Definition cache_after (c stored : list coord) (j : nat) : list coord := c ++ firstn j stored.
